@@ -163,14 +163,16 @@ def rand_history(rng, cfg, n, conc):
 
 def script_of_history(hist):
     """strip outcomes from a recorded history -> script events (concurrent groups re-assembled)."""
-    out, conc = [], None
+    out, conc, open_ids = [], None, set()
     for e in hist:
         if e["ev"] == "begin":
-            if conc is None:
+            if conc is None or not open_ids:        # a batch ends when all its operations have returned
                 conc = {"ev": "conc", "reqs": []}
                 out.append(conc)
+            open_ids.add(e["id"])
             conc["reqs"].append({"q": e["q"], "g": e["g"], "cost": e["cost"]})
         elif e["ev"] == "end":
+            open_ids.discard(e["id"])
             continue
         else:
             conc = None
@@ -215,6 +217,31 @@ def execute(ctx, binary, scripts, tag):
     return [read_ndjson(os.path.join(d, "trace-%03d.ndjson" % i)) for i in range(len(scripts))]
 
 
+def drift_check(ctx, tag, n):
+    """hook-level recordings (fw.inc under quota.mutex) against the implementation-shaped model.
+    A mismatch is MODEL-DRIFT (evidence only), never a violation."""
+    d = ctx.sub("run-" + tag)
+
+    def one(i):
+        ev = read_ndjson(os.path.join(d, "hooks-%03d.ndjson" % i))
+        for e in ev:
+            if e.get("ev") == "fw.inc":
+                e["q"], e["k"] = e.pop("key").rsplit("_", 1)
+                e.pop("req", None)
+        acc, rej, _ = validate_history_trace(ctx, SPEC, "FixedWindowITrace", ev, tag="%s-i%d" % (tag, i), max_rounds=1)
+        return acc, rej, sum(1 for e in ev if e.get("ev") == "fw.inc")
+    tot = 0
+    for acc, rej, k in parallel(one, list(range(n)), n=8):
+        tot += k
+        if rej:
+            ctx.cov["model_drift"] = True
+            r = rej[0]
+            ctx.notes.append("MODEL-DRIFT: fw.inc event not explained by FixedWindowOps!IncLocked: %s" % json.dumps(r["hist"][r["at"]]))
+    ctx.notes.append("hook level: %d fw.inc events of %d recordings validated against FixedWindowOps!IncLocked%s"
+                     % (tot, n, " - MODEL-DRIFT" if ctx.cov["model_drift"] else ""))
+    ctx.log(ctx.notes[-1])
+
+
 def judge(ctx, binary, scripts, traces, tag, seen_hist):
     """validate recorded traces against FixedWindowP; confirm each rejection by re-execution; report."""
     def one(it):
@@ -252,7 +279,7 @@ GEN_CONFIG = {"quotas": ["p", "c1", "c2", "z"], "parent": {"p": "-", "c1": "p", 
               "grouped": {"p": False, "c1": True, "c2": False, "z": True}, "groups": ["a", "b", "default"]}
 
 SEQ_VARIANTS = ["strict_gt", "no_delete", "no_parent", "no_error", "no_group"]      # each must be refuted by TLC
-CONC_VARIANTS = ["racy_inc", "no_delete", "no_error"]
+CONC_VARIANTS = ["racy_inc", "no_error"]
 
 
 def variant_cfg(sd, base, variant, drop=()):
@@ -282,6 +309,7 @@ def run(ctx):
                         "'full' = the counter of the current window has reached the maximum (child quotas are charged before ancestors, also by requests an ancestor refuses)",
                         "every quota of a configuration is referenced by a flow or is an ancestor of a referenced quota (no stand-alone system-flow counting)",
                         "spillover and monthly renewal not covered (monthly renewal is unreachable in this tree: fixedWindow.monthlyRenewal is never assigned)",
+                        "transaction ids of overlapping requests are distinct; in the interleaving model every id names one transaction",
                         "instants are bounded in the exhaustive models (MaxNow)"]
 
     # (1) exhaustive: requests one at a time: I refines P; interleaved critical sections: the bound.
@@ -292,6 +320,7 @@ def run(ctx):
             ("ex", "MC_C01", "MC_conc_small.cfg" if not T else "MC_conc_large.cfg", "conc: bound under interleaving")]
     if T:
         jobs.append(("ex", "MC_C01", "MC_seq_chain3.cfg", "seq: 3-level chain, costs {1,2}"))
+        jobs.append(("ex", "MC_C01", "MC_seq_siblings.cfg", "seq: parent with two children"))
         jobs.append(("ex", "MC_C01", "MC_seq_small.cfg", "seq: I refines P, Exact, NoCarry (small)"))
         jobs.append(("ok", "MC_C01", variant_cfg(sd, "MC_seq_small.cfg", "no_trunc"), "benign variant no_trunc must pass"))
     jobs += [("nv", "MC_C01", variant_cfg(sd, "MC_seq_small.cfg", v, ("MemoClean",)), v) for v in (SEQ_VARIANTS if T else SEQ_VARIANTS[:3])]
@@ -341,10 +370,12 @@ def run(ctx):
     scripts = []
     for c in range(ncfg):
         cfg = rand_config(ctx.rng, T, custom=(c % 3 == 2))
-        scripts.append(script_of(cfg, [rand_history(ctx.rng, cfg, hl, conc=(i % 2 == 1)) for i in range(nh)]))
+        scripts.append(script_of(cfg, [rand_history(ctx.rng, cfg, hl, conc=(i % 2 == 1)) for i in range(nh)], hooks=True))
     traces = execute(ctx, binary, scripts, "rand")
     ctx.sample({"kind": "recorded-trace", "events": traces[0][:14]})
     judge(ctx, binary, scripts, traces, "rand", seen)
+    if not ctx.violations:
+        drift_check(ctx, "rand", len(scripts))
     if ctx.cov["distinct_nontrivial"] < 20 and not ctx.violations:
         raise Broken("only %d non-trivial histories" % ctx.cov["distinct_nontrivial"])
 
